@@ -384,6 +384,7 @@ TSPE = R + "tsp/env.py"
 PDPE = R + "pdp/env.py"
 CORPUS += [
     # ---------------------------------------------------------------- C09
+    V("C09", "ruinrepair-visit-order-without-modulus", "rl4co/envs/routing/pdp/env.py", '        visited_time = visited_time % gs\n        arange = torch.arange(bs)\n\n        visited_order_map', '        arange = torch.arange(bs)\n\n        visited_order_map', 'C09.h'),
     V("C09", "kopt-reset-best-aliases-current", TSPE, '"rec_best": current_rec.clone(),', '"rec_best": current_rec,', "C09.a"),
     V("C09", "kopt-reset-cost-bsf-alias", TSPE, '"cost_bsf": obj.clone(),', '"cost_bsf": obj,', "C09.a"),
     V("C09", "kopt-local-operator-in-place", TSPE, "    def _local_operator(self, solution, action):\n        rec = solution.clone()", "    def _local_operator(self, solution, action):\n        rec = solution", "C09.a"),
@@ -524,6 +525,8 @@ CORPUS += [
 
 CORPUS += [
     # ---------------------------------------------------------------- C13
+    V("C13", "beam-temperature-dropped", "rl4co/utils/decoding.py", '        kwargs["store_all_logp"] = True\n        super().__init__(**kwargs)', '        kwargs["store_all_logp"] = True\n        kwargs.pop("temperature", None)\n        super().__init__(**kwargs)', 'C13.f'),
+    V("C13", "beam-temperature-overwritten", "rl4co/utils/decoding.py", '        kwargs["store_all_logp"] = True\n        super().__init__(**kwargs)', '        kwargs["store_all_logp"] = True\n        kwargs["temperature"] = 1.0\n        super().__init__(**kwargs)', 'C13.f'),
     V("C13", "beam-idx-parent-times-width", DECP, "        batch_beam_idx = batch_beam_sequence + beam_parent * batch_size\n", "        batch_beam_idx = batch_beam_sequence + beam_parent * self.beam_width\n", "C13.a"),
     V("C13", "beam-seq-repeat-interleave", DECP, "            torch.arange(0, batch_size).repeat(self.beam_width).to(logprobs.device)", "            torch.arange(0, batch_size).repeat_interleave(self.beam_width).to(logprobs.device)", "C13.a"),
     V("C13", "beam-decode-mod-width", DECP, "        selected = topk_ind % num_nodes  # determine node index", "        selected = topk_ind % self.beam_width  # determine node index", "C13.b"),
@@ -685,6 +688,11 @@ GDF = "rl4co/data/generate_data.py"
 FPF = "rl4co/envs/scheduling/fjsp/parser.py"
 CORPUS += [
     # ---------------------------------------------------------------- C19
+    V("C19", "litmodule-hparams-without-policy", "rl4co/models/rl/common/base.py", 'self.save_hyperparameters(logger=False)', 'self.save_hyperparameters(logger=False, ignore=["policy"])', 'C19.e'),
+    V("C19", "cvrp-load-normalised-by-first-capacity", "rl4co/envs/routing/cvrp/env.py", 'td_load["demand"] / td_load["capacity"][:, None]', 'td_load["demand"] / td_load["capacity"][0]', 'C19.b'),
+    V("C19", "fjsp-parser-memoised", "rl4co/envs/scheduling/fjsp/parser.py", 'def file2lines(', '@lru_cache(maxsize=None)\ndef file2lines(', 'C19.f'),
+    V("C19", "eq-cvrp-load-unsqueeze", "rl4co/envs/routing/cvrp/env.py", 'td_load["demand"] / td_load["capacity"][:, None]', 'td_load["demand"] / td_load["capacity"].unsqueeze(-1)', None),
+    V("C19", "eq-litmodule-hparams-ignore-other", "rl4co/models/rl/common/base.py", 'self.save_hyperparameters(logger=False)', 'self.save_hyperparameters(logger=False, ignore=["log_on_step"])', None),
     V("C19", "vrp-writer-renames-capacity", GDF, '"capacity": np.full(dataset_size, CAPACITIES[vrp_size]).astype(np.float32),', '"vehicle_capacity": np.full(dataset_size, CAPACITIES[vrp_size]).astype(np.float32),', "C19.b"),
     V("C19", "op-writer-drops-max-length", GDF, '        "max_length": np.full(dataset_size, max_lengths[op_size]).astype(np.float32),\n', '', "C19.b"),
     V("C19", "pdp-writer-renames-depot", GDF, '        "depot": depot.astype(np.float32),\n    }\n\n\ndef generate_op_data', '        "depots": depot.astype(np.float32),\n    }\n\n\ndef generate_op_data', "C19.b"),
